@@ -63,6 +63,10 @@ def check_op(prog, rep, m, name):
             for c in calls(n):
                 if short(c) == 'append' and isinstance(c.func, ast.Attribute) and isinstance(c.func.value, ast.Name):
                     cells.add(c.func.value.id)
+        if isinstance(n, ast.Assign) and isinstance(n.targets[0], ast.Name) and isinstance(n.value, ast.ListComp) and \
+                len(n.value.generators) == 1 and not n.value.generators[0].ifs and \
+                any(short(c) == 'nditer' for c in calls(n.value.generators[0].iter)):
+            cells.add(n.targets[0].id)      # the per-cell list built by a comprehension over the lock-step walk
         if isinstance(n, ast.Assign) and isinstance(n.value, ast.Call) and isinstance(n.targets[0], ast.Name):
             g = prog.resolve_callable(f, m, n.value.func)
             if isinstance(g, Func) and g is not f and any(short(c) == 'nditer' for c in calls(g.node)):
@@ -120,6 +124,7 @@ def check_op(prog, rep, m, name):
                 if not alt else 'non-C flattening order')
     # ---- L5: reshape by the column count
     rs = [c for c in calls(f.node) if short(c) == 'reshape']
+    senv = straightline_env(f.node.body)
     for c in rs:
         shp = None
         if isinstance(c.func, ast.Attribute) and isinstance(c.func.value, ast.Name) and c.func.value.id in ('np', 'numpy'):
@@ -127,6 +132,8 @@ def check_op(prog, rep, m, name):
         else:
             shp = c.args[0] if len(c.args) == 1 else ast.Tuple(elts=list(c.args), ctx=ast.Load())
         ok = False
+        if shp is not None:
+            shp = inline(shp, senv)      # `n_cols = raster[..].data.shape[1]` named before the reshape
         why = 'shape argument %s' % (norm(shp) if shp is not None else None)
         if isinstance(shp, ast.Tuple) and len(shp.elts) == 2:
             a, b = shp.elts
@@ -360,38 +367,82 @@ def _block_of(root, stmt):
 
 def check_combine(rep, f, loop, comb):
     """ids from 1 in first-occurrence order, forward map tuple -> id, inverse map id -> tuple in attrs; every cell gets
-    the id recorded for its tuple.  Names are taken from the structure (the membership test on the cell tuple)."""
-    tests = [n for n in ast.walk(loop) if isinstance(n, ast.If) and isinstance(n.test, ast.Compare) and len(n.test.ops) == 1
-             and isinstance(n.test.ops[0], (ast.In, ast.NotIn)) and norm(n.test.left) == comb]
-    if len(tests) != 1:
-        rep.add('L4', f, 'combine', 'membership test of the cell tuple', loop.lineno, None,
-                'expected one `%s in <dict>` / `%s not in <dict>` test, found %d' % (comb, comb, len(tests)))
+    the id recorded for its tuple.  Decided per path through the loop body (astutil.body_paths): the paths on which the
+    membership test of the cell tuple is false ("new"), true ("seen"), or not reached ("other": NaN cells)."""
+    from ..astutil import body_paths
+
+    def member(test):
+        """(dict name, True for `in` / False for `not in`) if test is the membership test of the cell tuple"""
+        if isinstance(test, ast.UnaryOp) and isinstance(test.op, ast.Not):
+            r = member(test.operand)
+            return (r[0], not r[1]) if r else None
+        if isinstance(test, ast.Compare) and len(test.ops) == 1 and isinstance(test.ops[0], (ast.In, ast.NotIn)) and \
+                norm(test.left) == comb:
+            return norm(test.comparators[0]).replace('.keys()', ''), isinstance(test.ops[0], ast.In)
+        return None
+    try:
+        paths = body_paths(loop.body)
+    except ValueError as e:
+        rep.add('L4', f, 'combine', 'per-cell paths', loop.lineno, None, str(e))
         return
-    t = tests[0]
-    D = norm(t.test.comparators[0]).replace('.keys()', '')
-    new, seen = (t.body, t.orelse) if isinstance(t.test.ops[0], ast.NotIn) else (t.orelse, t.body)
-    fwd = [s for s in new if isinstance(s, ast.Assign) and norm(s.targets[0]) == '%s[%s]' % (D, comb) and isinstance(s.value, ast.Name)]
-    V = fwd[0].value.id if len(fwd) == 1 else None
-    inv = [s for s in new if isinstance(s, ast.Assign) and isinstance(s.targets[0], ast.Subscript) and V is not None and
-           norm(s.targets[0].slice) == V and norm(s.value) == comb]
-    I = norm(inv[0].targets[0].value) if len(inv) == 1 else None
-    inc = [s for s in new if V is not None and norm(s).replace(' ', '') in ('%s+=1' % V, '%s=%s+1' % (V, V), '%s=1+%s' % (V, V))]
-    ordered = len(fwd) == 1 and len(inv) == 1 and len(inc) == 1 and new.index(inc[0]) > max(new.index(fwd[0]), new.index(inv[0]))
-    # no other write to the counter or the maps inside the loop
-    other = []
-    for n in ast.walk(loop):
-        if isinstance(n, (ast.Assign, ast.AugAssign)) and n not in fwd + inv + inc:
-            tg = n.targets[0] if isinstance(n, ast.Assign) else n.target
-            base = tg.value if isinstance(tg, ast.Subscript) else tg
-            if V is not None and norm(base) in (V, D, I):
-                other.append(norm(n))
-        if isinstance(n, ast.Call) and short(n) in ('pop', 'clear', 'update', 'setdefault', 'popitem') and \
-                isinstance(n.func, ast.Attribute) and norm(n.func.value) in (D, I):
-            other.append(norm(n))
+    Ds = {member(t)[0] for p in paths for t, taken in p.conds if member(t)}
+    if len(Ds) != 1:
+        rep.add('L4', f, 'combine', 'membership test of the cell tuple', loop.lineno, None,
+                'expected `%s in <dict>` / `%s not in <dict>` tests on one dict, found %s' % (comb, comb, sorted(Ds)))
+        return
+    D = Ds.pop()
+    lookup = '%s[%s]' % (D, comb)
+
+    def kind(p):
+        for t, taken in p.conds:
+            r = member(t)
+            if r:
+                return 'seen' if r[1] == taken else 'new'
+        return 'other'
+    groups = {'new': [], 'seen': [], 'other': []}
+    for p in paths:
+        groups[kind(p)].append(p)
+    tline = next(t.lineno for p in paths for t, taken in p.conds if member(t))
+
+    def writes(p):
+        """(kind, statement) for the statements of a path that touch a name: store / augmented store / mutating call"""
+        out = []
+        for s in p.stmts:
+            if isinstance(s, ast.Assign):
+                for tg in s.targets:
+                    out.append(('sub' if isinstance(tg, ast.Subscript) else 'name', norm(tg.value if isinstance(tg, ast.Subscript) else tg), s))
+            elif isinstance(s, ast.AugAssign):
+                tg = s.target
+                out.append(('aug', norm(tg.value if isinstance(tg, ast.Subscript) else tg), s))
+            elif isinstance(s, ast.Expr) and isinstance(s.value, ast.Call) and isinstance(s.value.func, ast.Attribute) and \
+                    short(s.value) in ('pop', 'clear', 'update', 'setdefault', 'popitem'):
+                out.append(('call', norm(s.value.func.value), s))
+        return out
+    # names from the structure of the first "new" path: forward store D[comb] = V, inverse store I[V] = comb
+    V = I = None
+    facts = []
+    ok_new = bool(groups['new'])
+    for p in groups['new']:
+        fwd = [s for s in p.stmts if isinstance(s, ast.Assign) and norm(s.targets[0]) == lookup and isinstance(s.value, ast.Name)]
+        v_ = fwd[0].value.id if len(fwd) == 1 else None
+        inv = [s for s in p.stmts if isinstance(s, ast.Assign) and isinstance(s.targets[0], ast.Subscript) and v_ is not None and
+               norm(s.targets[0].slice) == v_ and norm(s.value) == comb]
+        i_ = norm(inv[0].targets[0].value) if len(inv) == 1 else None
+        inc = [s for s in p.stmts if v_ is not None and norm(s).replace(' ', '') in ('%s+=1' % v_, '%s=%s+1' % (v_, v_), '%s=1+%s' % (v_, v_))]
+        ordered = len(fwd) == 1 and len(inv) == 1 and len(inc) == 1 and \
+            p.stmts.index(inc[0]) > max(p.stmts.index(fwd[0]), p.stmts.index(inv[0]))
+        other = [norm(s) for k_, nm, s in writes(p) if nm in (v_, D, i_) and s not in fwd + inv + inc]
+        facts.append((len(fwd), len(inv), len(inc), other))
+        ok_new = ok_new and ordered and not other and (V in (None, v_)) and (I in (None, i_))
+        V, I = V or v_, I or i_
+        p.fwd, p.inc = (fwd[0] if fwd else None), (inc[0] if inc else None)
+    # the other paths leave the counter and the maps alone
+    stray = [norm(s) for g in ('seen', 'other') for p in groups[g] for k_, nm, s in writes(p) if V is not None and nm in (V, D, I)]
+    # and nothing else in the loop (nested blocks that are not simple statements) touches them
     rep.add('L4', f, 'combine', 'new combination: %s[%s] = %s; %s[%s] = %s; %s += 1' % (D, comb, V, I, V, comb, V),
-            t.lineno, ordered and not other, 'a tuple seen for the first time must get the next id, be recorded in the forward and '
-            'inverse maps, and only then the id advances by one; nothing else may change them in the loop (forward %d, inverse %d, '
-            'increment %d, other writes %s)' % (len(fwd), len(inv), len(inc), other))
+            tline, ok_new and not stray, 'a tuple seen for the first time must get the next id, be recorded in the forward and '
+            'inverse maps, and only then the id advances by one; nothing else may change them in the loop ((forward, inverse, '
+            'increment, other writes) per new-tuple path: %s; writes on other paths: %s)' % (facts, stray))
     if V is None:
         return
     las = f.local_assigns().get(V, [])
@@ -413,49 +464,46 @@ def check_combine(rep, f, loop, comb):
                 ok = True
     rep.add('L4', f, 'combine', 'attrs=dict(key=%s)' % I, f.node.lineno, ok, 'the id-to-tuple key must be returned in attrs')
     # ---- the value every cell receives: on each path exactly one append to the result list, of the tuple's id
-    blk, ti = _block_of(loop, t)
-    after = blk[ti + 1:] if blk is not None else []
-
-    def appends_in(stmts):
-        out = []
-        for s in stmts:
-            if isinstance(s, ast.Expr) and isinstance(s.value, ast.Call) and short(s.value) == 'append' and s.value.args:
-                out.append((norm(s.value.func.value), s.value.args[0], s))
-        return out
-    lookup = '%s[%s]' % (D, comb)
-    # the result list is the one turned into the output array
     res = {norm(c.args[0]) for c in calls(f.node) if short(c) in ('array', 'asarray') and c.args and isinstance(c.args[0], ast.Name)}
     if len(res) != 1:
-        rep.add('L4', f, 'combine', 'per-cell id', t.lineno, None, 'expected one list converted to the output array, found %s' % sorted(res))
+        rep.add('L4', f, 'combine', 'per-cell id', tline, None, 'expected one list converted to the output array, found %s' % sorted(res))
         return
     R = next(iter(res))
-    a_new = [(a, s) for lst, a, s in appends_in(new) if lst == R]
-    a_seen = [(a, s) for lst, a, s in appends_in(seen) if lst == R]
-    a_aft = [(a, s) for lst, a, s in appends_in(after) if lst == R]
-    once = len(a_new) + len(a_aft) == 1 and len(a_seen) + len(a_aft) == 1
-    good_new = all((norm(a) == V and new.index(s) < new.index(inc[0])) or (norm(a) == lookup and new.index(s) > new.index(fwd[0]))
-                   for a, s in a_new) if ordered else False
-    good_aft = all(norm(a) == lookup for a, s in a_aft)
+
+    def appended(p):
+        return [(s.value.args[0], s) for s in p.stmts if isinstance(s, ast.Expr) and isinstance(s.value, ast.Call) and
+                short(s.value) == 'append' and s.value.args and norm(s.value.func.value) == R]
+    once = all(len(appended(p)) == 1 for p in paths)
+    good_new = True
+    for p in groups['new']:
+        for a, s in appended(p):
+            if norm(a) == V and p.inc is not None and p.stmts.index(s) < p.stmts.index(p.inc):
+                continue
+            if norm(a) == lookup and p.fwd is not None and p.stmts.index(s) > p.stmts.index(p.fwd):
+                continue
+            good_new = False
     fixup = False
     good_seen = True
-    if ordered and not all(norm(a) in (V, lookup) for a, s in a_new):
-        good_new = False
-    for a, s in a_seen:
-        if norm(a) == lookup:
-            continue
-        if norm(a) == '0':
-            # deferred: a later pass replaces the 0 placeholders by the id stored for the tuple
-            for n in f.own_nodes():
-                if isinstance(n, ast.Assign) and isinstance(n.targets[0], ast.Subscript) and norm(n.targets[0].value) == R \
-                        and ('%s[' % D) in norm(n.value) and n.lineno > loop.end_lineno:
-                    fixup = True
-            good_seen = good_seen and fixup
-        else:
-            good_seen = False
+    for p in groups['seen']:
+        for a, s in appended(p):
+            if norm(a) == lookup:
+                continue
+            if norm(a) == '0':
+                # deferred: a later pass replaces the 0 placeholders by the id stored for the tuple
+                for n in f.own_nodes():
+                    if isinstance(n, ast.Assign) and isinstance(n.targets[0], ast.Subscript) and norm(n.targets[0].value) == R \
+                            and ('%s[' % D) in norm(n.value) and n.lineno > loop.end_lineno:
+                        fixup = True
+                good_seen = good_seen and fixup
+            else:
+                good_seen = False
+    shown_new = sorted({norm(a) for p in groups['new'] for a, s in appended(p)})
+    shown_seen = sorted({norm(a) for p in groups['seen'] for a, s in appended(p)})
     rep.add('L4', f, 'combine', 'every cell appends the id of its tuple to %s once (first occurrence: %s, repeated: %s%s)' % (
-        R, [norm(a) for a, s in a_new + a_aft], [norm(a) for a, s in a_seen + a_aft], ', placeholders resolved later' if fixup else ''),
-        t.lineno, once and good_new and good_aft and good_seen,
-        'cells whose tuple was seen before must receive that tuple\'s id, first occurrences the freshly allocated one')
+        R, shown_new, shown_seen, ', placeholders resolved later' if fixup else ''),
+        tline, once and good_new and good_seen,
+        'cells whose tuple was seen before must receive that tuple\'s id, first occurrences the freshly allocated one '
+        '(%d paths through the loop body: %d new, %d seen, %d other)' % (len(paths), len(groups['new']), len(groups['seen']), len(groups['other'])))
 
 
 def check(prog, rep):
